@@ -152,6 +152,7 @@ class WsServer:
                       {'e': 'SrvRecvCall'}                  the application side called receive()
                       {'e': 'SrvRecvRet', 'm': label}       receive() returned that event
                       {'e': 'SrvRecvCancel'}                an outstanding receive() was cancelled
+                      {'e': 'SrvRecvFail'}                  receive() raised OSError (after fail())
                       {'e': 'SrvSend', 't': kind, 'ev': event}   send(event) was called
     label(event)    projection of an event for the log (default: its type)
     recv_mode       'immediate' | 'suspend'   (see module doc)
@@ -169,6 +170,7 @@ class WsServer:
         self.send_mode = send_mode
         self.connected = False
         self.waiter = None
+        self.failed = False        # fail() was called: receive() raises from now on
         self.outstanding = 0       # receive() calls issued and not yet returned/cancelled
         self.calls = 0             # receive() calls after the connect event
         self.sent = []
@@ -185,6 +187,13 @@ class WsServer:
             w.set_result(None)
         return True
 
+    def fail(self):
+        """The server breaks: the outstanding receive() (or else the next one) raises OSError."""
+        self.failed = True
+        w = self.waiter
+        if w is not None and not w.done():
+            w.set_result(None)
+
     async def receive(self):
         if not self.connected:
             self.connected = True
@@ -195,7 +204,7 @@ class WsServer:
         try:
             if self.recv_mode == 'suspend':
                 await asyncio.sleep(0)
-            while not self.avail:
+            while not self.avail and not self.failed:
                 self.waiter = asyncio.get_running_loop().create_future()
                 try:
                     await self.waiter
@@ -205,6 +214,10 @@ class WsServer:
             self.outstanding -= 1
             self.log.append({'e': 'SrvRecvCancel'})
             raise
+        if self.failed:
+            self.outstanding -= 1
+            self.log.append({'e': 'SrvRecvFail'})
+            raise OSError('server receive() failed (injected)')
         ev = self.avail.pop(0)
         self.outstanding -= 1
         self.log.append({'e': 'SrvRecvRet', 'm': self.label(ev)})
